@@ -33,7 +33,7 @@ class RunAnalysis:
     def __init__(self, spec, sites, fns, programs):
         self.spec, self.sites, self.fns, self.programs = spec, sites, fns, programs
 
-    def analyse(self, xline, vline, qline, fail, tlines, ev):
+    def analyse(self, xline, vline, qline, fail, tlines, ev, iline=None):
         m = re.match(r"X\|run=(\d+)\|sched=([\d,]*)\|result=(\w+)", xline)
         run, sched, result = int(m.group(1)), m.group(2), m.group(3)
         replay = ["P|" + ",".join(str(f) for f in self.fns) + "|" + "||".join(";".join(p) for p in self.programs), xline, vline]
@@ -63,6 +63,7 @@ class RunAnalysis:
         hs = self.spec[hot]
         started = {}         # thread -> position of the S event of its current op
         hot_calls = []       # (start position, end position, thread, key, execs, returned value) of calls on the hot cache
+        invs = []            # (start, end, "clear" | "cond", mask) of invalidations that address the hot cache
         for pos, e in enumerate(events):
             if not e:
                 continue
@@ -130,6 +131,15 @@ class RunAnalysis:
                     elif "PANIC" in body:
                         fail("C16", f"call {' '.join(op)} panicked under schedule [{sched}]: {body}", replay)
                 else:
+                    # invalidations that address the hot cache: (start, end, kind, mask) — full clears and conditional ones
+                    if op[0] == "tag" and op[1] in hs["tags"] or op[0] == "event" and op[1] in hs["events"] or \
+                            op[0] == "dep" and op[1] in hs["deps"] or op[0] == "cache" and op[1] == hs["name"]:
+                        if hs["tags"] or hs["events"] or hs["deps"]:
+                            invs.append((started.get(t, pos), pos, "clear", None))
+                    elif op[0] == "with" and op[1] == hs["name"]:
+                        invs.append((started.get(t, pos), pos, "cond", int(op[2])))
+                    elif op[0] == "allwith":
+                        invs.append((started.get(t, pos), pos, "cond", int(op[1])))
                     k = {"tag": "tag", "event": "event", "dep": "dep", "cache": "cache", "with": "with", "allwith": "allwith",
                          "sget": "stats", "slist": "stats", "sreset": "stats"}.get(op[0])
                     if op[0] == "sreset":
@@ -137,6 +147,47 @@ class RunAnalysis:
                     if k:
                         tlines.append(f"T|{k}|-|-|{syncs}|{asyncs}|{' '.join(trace[t])}")
                     ev("concurrent-" + op[0])
+        # every call SERVED FROM THE CACHE needs a legitimate source: an entry stored by a call on the same key that could
+        # still be there (C01 / C18), i.e. not separated from it by a COMPLETE invalidation that addresses the key (C12 for
+        # group / name invalidations, C13 for conditional ones), or an entry of the initial state that is not expired (C06)
+        if not hs["thread"] and not hs["inv_on"]:
+            init_entries = {}
+            if iline:
+                for part in iline[2:].split("|")[0].split("@"):
+                    if part.startswith(f"{hot}:g=") and part != f"{hot}:g=-":
+                        for ent in part.split("=", 1)[1].split("#")[0].split(";"):
+                            if ent:
+                                k_, _, r_ = ent.partition("=")
+                                init_entries[k_] = int(r_.split(",")[2])
+            def separated(src_end, c_start, key):
+                for (a, b, kind, mask) in invs:
+                    if a > src_end and b < c_start and (kind == "clear" or mask_pred(key, mask)):
+                        return kind
+                return None
+            for (st, en, t, key, ex, ret) in hot_calls:
+                if ex != 0:
+                    continue
+                ev("served-call-source-checked")
+                sources = [(s_en, "call") for (s_st, s_en, _, s_key, s_ex, _) in hot_calls if s_key == key and s_ex == 1 and s_st < en]
+                expired_init = False
+                if key in init_entries:
+                    if hs["ttl"] is not None and init_entries[key] >= 1000 * hs["ttl"]:
+                        expired_init = True
+                    else:
+                        sources.append((-1, "initial"))
+                seps = [separated(s_en, st, key) for (s_en, _) in sources]
+                if sources and all(seps):
+                    pid = "C12" if "clear" in seps else "C13"
+                    fail(pid, f"cache {hs['name']}: the call for key {key[:24]} on thread {t} was served from the cache although every entry that had been stored for it "
+                              f"was followed by a COMPLETED {'group/name' if pid == 'C12' else 'conditional'} invalidation addressing it before the call began - an entry from before "
+                              f"the invalidation survived it (schedule [{sched}])", replay)
+                elif not sources:
+                    if expired_init:
+                        fail("C06", f"cache {hs['name']} (ttl {hs['ttl']} s): the call for key {key[:24]} on thread {t} was served from the cache, but the only entry ever stored for it "
+                                    f"was {init_entries[key]} ms old when the run began (expired) and no call stored it again (schedule [{sched}])", replay)
+                    else:
+                        fail("C01", f"cache {hs['name']}: the call for key {key[:24]} on thread {t} was served from the cache although no call had stored a value for these arguments "
+                                    f"(schedule [{sched}])", replay)
         plain = (hs["limit"] is None and hs["maxmem"] is None and hs["ttl"] is None and not hs["cache_if"] and not hs["inv_on"]
                  and not hs["is_result"])
         if calls_only and plain and not hs["thread"]:
@@ -198,6 +249,9 @@ class RunAnalysis:
                     fail("C18", f"at quiescence cache {s['name']} holds {len(entries)} entries with limit {s['limit']} (schedule [{sched}])", replay)
                 if s["maxmem"] is not None and s["use_mem"] and sum(e[1] for e in entries.values()) > s["maxmem"]:
                     fail("C18", f"at quiescence cache {s['name']} holds {sum(e[1] for e in entries.values())} bytes with max_memory {s['maxmem']}", replay)
+                    fail("C05", f"after concurrent memory-aware stores cache {s['name']} holds {sum(e[1] for e in entries.values())} bytes with max_memory {s['maxmem']} (schedule [{sched}])", replay)
+                if s["limit"] is not None and len(entries) > s["limit"]:
+                    fail("C04", f"after concurrent stores cache {s['name']} holds {len(entries)} entries with limit {s['limit']} (schedule [{sched}])", replay)
                 if len(set(queue)) != len(queue):
                     fail("C18", f"at quiescence the queue of cache {s['name']} has duplicate keys", replay)
                 ev("quiescent-cache-checked")
@@ -395,7 +449,7 @@ def run_sched_stream(prop, stream, tier, seed, workdir, scale=1):
             elif line.startswith("Q|") and cur and x and v:
                 before = dict(acc["events"])
                 cur.analyse(x, v, line, lambda pid, msg, rp: verdicts.append(
-                    {"kind": "MON", "id": pid, "episode": 0, "step": 0, "text": f"MON {pid} :: {msg}", "raw": rp}), tlines, ev)
+                    {"kind": "MON", "id": pid, "episode": 0, "step": 0, "text": f"MON {pid} :: {msg}", "raw": rp}), tlines, ev, iline=iline)
                 runs += 1
                 acc["steps"] += 1
                 if iline is not None:
